@@ -89,6 +89,9 @@ func Call(
 	if err != nil {
 		return nil, err
 	}
+	if obj == nil {
+		return nil, fmt.Errorf("variable %q has no value", functionName)
+	}
 	fn, ok := obj.(*object.Function)
 	if !ok {
 		return nil, fmt.Errorf("object is not a function (got: %s)", obj.Type())
